@@ -17,10 +17,6 @@ func (z *Zone) Respond(q *dns.Msg) *dns.Msg {
 	do := false
 	if opt := q.IsEdns0(); opt != nil {
 		do = opt.Do()
-		size := opt.UDPSize()
-		if size < 512 {
-			size = 512
-		}
 		m.SetEdns0(1232, do)
 	}
 	if len(q.Question) != 1 {
@@ -67,14 +63,8 @@ func (z *Zone) answerSet(source string, typ uint16, shown []dns.RR, do bool) []d
 func (z *Zone) soaAuthority(do bool) []dns.RR {
 	set := z.nodes[z.apex].sets[dns.TypeSOA]
 	rrs := copyRRs(set.RRs)
-	// negative answers carry the SOA with TTL = min(SOA TTL, MINIMUM)
-	soa := rrs[0].(*dns.SOA)
-	if soa.Minttl < soa.Hdr.Ttl {
-		// keep the published TTL in the record: a validator restores OrigTTL
-		// anyway; servers commonly lower it. We serve the published one so the
-		// signature's OrigTTL matches without relying on TTL restoration.
-		_ = soa
-	}
+	// The SOA is served with its published TTL (servers commonly lower it to
+	// MINIMUM; we do not, so OrigTTL matches without TTL restoration).
 	out := rrs
 	if do && z.spec.Signed {
 		out = append(out, copyRRs(z.sigsLocked(z.apex, dns.TypeSOA, set.RRs))...)
